@@ -587,7 +587,9 @@ def init_unit(ctx, res, col, reg, mode, key):
             st.inputs["payload"] = ("bytes", pb, pn)
             P = SBytes.view(pb, 0, pn)
             pbf = variant in (0, 3)
-            kwargs = {"payload": P, "parsebitfield": pbf}
+            # the documented values are True/False, the property quantifies over {0, 1}: the arbitrary-payload variants
+            # pass the bools, the conforming variants the integers
+            kwargs = {"payload": P, "parsebitfield": (int(pbf) if conforming else pbf)}
             sub = f"pbf={int(pbf)}" + (" conforming" if conforming else "")
         if addressing == "names":
             # only when the name is unambiguous (a name shared by two IDs is finding F-04a)
@@ -686,6 +688,8 @@ def replay_instance(o):
     kwargs = {}
     if variant != "nopayload":
         kwargs = {"payload": inp.get("payload", b""), "parsebitfield": variant == "pbf=1"}
+        if m.group(5):  # the conforming variants pass the integer values 0 / 1
+            kwargs["parsebitfield"] = int(kwargs["parsebitfield"])
     a_cls, a_id = cls, mid
     if addressing == "by-ints":
         a_cls, a_id = cls[0], mid[0]
